@@ -623,7 +623,7 @@ func replayRules(c *Ctx, which string) {
 						oa.Fail(ret.Pos(), "after moving the head the bit set is %s, not bit 0", setArgs[0])
 					}
 					for _, v := range retValAt(ret, 0) {
-						if !isConstBool(ptc.value(v), true) {
+						if !pathBoolIs(&ptc, v, true) {
 							oa.Fail(ret.Pos(), "accept does not report 'latest' although it moved the head")
 						}
 					}
@@ -673,7 +673,7 @@ func replayRules(c *Ctx, which string) {
 						oa.Fail(ret.Pos(), "after moving the head the bit set is %s, not bit 0", setArgs[0])
 					}
 					for _, v := range retValAt(ret, 0) {
-						if !isConstBool(v, true) {
+						if !pathBoolIs(&ptc, v, true) {
 							oa.Fail(ret.Pos(), "accept does not report 'latest' although it moved the head")
 						}
 					}
@@ -685,7 +685,7 @@ func replayRules(c *Ctx, which string) {
 						oa.Fail(ret.Pos(), "the bit set (%s) is not the folded distance Check tested: once the head has wrapped past 0 the accepted number is not recorded and its replay is accepted", setArgs[0])
 					}
 					for _, v := range retValAt(ret, 0) {
-						if !isConstBool(v, false) {
+						if !pathBoolIs(&ptc, v, false) {
 							oa.Fail(ret.Pos(), "accept reports 'latest' although it did not move the head")
 						}
 					}
@@ -1003,6 +1003,37 @@ func maskWidth(c *Ctx, newBig, lsh *ssa.Function, msb string) {
 			}
 			return linForm{}, false
 		}
+		symR := func(x ssa.Value) (string, bool) {
+			if isR(x) {
+				return "r", true
+			}
+			return defaultSym(x)
+		}
+		allOnes := func(x ssa.Value) bool {
+			k, ok := constInt(x)
+			return ok && uint64(k) == ^uint64(0)
+		}
+		// ^(allones << w): the complement of the high bits
+		if u, ok := v.(*ssa.UnOp); ok && u.Op == token.XOR {
+			if shl, ok := origin(u.X).(*ssa.BinOp); ok && shl.Op == token.SHL && allOnes(shl.X) {
+				return linOf(shl.Y, symR), true
+			}
+		}
+		if x, ok := v.(*ssa.BinOp); ok && x.Op == token.XOR {
+			a, b := origin(x.X), origin(x.Y)
+			if allOnes(b) {
+				a, b = b, a
+			}
+			if shl, ok := b.(*ssa.BinOp); ok && allOnes(a) && shl.Op == token.SHL && allOnes(shl.X) {
+				return linOf(shl.Y, symR), true
+			}
+		}
+		// allones >> (64 - w)
+		if shr, ok := v.(*ssa.BinOp); ok && shr.Op == token.SHR && allOnes(shr.X) && isUnsignedType(shr.X.Type()) {
+			if amt := linOf(shr.Y, symR); amt.OK {
+				return linConst(64).add(amt, -1), true
+			}
+		}
 		sub, ok := v.(*ssa.BinOp)
 		if !ok || sub.Op != token.SUB {
 			return linForm{}, false
@@ -1084,3 +1115,46 @@ func runC04(c *Ctx) { replayRules(c, "C04") }
 func runC05(c *Ctx) { replayRules(c, "C05") }
 
 var _ = fmt.Sprint
+
+// pathBoolIs: the boolean v has the value want on this path: a constant, or a value the path has branched on
+// (a captured flag such as newer := diff < 0 that is tested and then returned).
+func pathBoolIs(pt *upath, v ssa.Value, want bool) bool {
+	rv := pt.value(v)
+	if isConstBool(rv, want) {
+		return true
+	}
+	same := func(a, b ssa.Value) bool {
+		if a == b || sameOrigin(a, b) {
+			return true
+		}
+		la, ok1 := a.(*ssa.UnOp)
+		lb, ok2 := b.(*ssa.UnOp)
+		if ok1 && ok2 && la.Op == token.MUL && lb.Op == token.MUL && la.X == lb.X {
+			// two loads of one captured variable that the closure never writes
+			if fv, isFV := la.X.(*ssa.FreeVar); isFV {
+				written := false
+				instrsOf(fv.Parent(), func(in ssa.Instruction) {
+					if st, ok := in.(*ssa.Store); ok && st.Addr == ssa.Value(fv) {
+						written = true
+					}
+				})
+				return !written
+			}
+		}
+		return false
+	}
+	for _, ft := range pt.Conds {
+		c, val := ft.Cond, ft.Val
+		for d := 0; d < 4; d++ {
+			if u, ok := c.(*ssa.UnOp); ok && u.Op == token.NOT {
+				c, val = u.X, !val
+				continue
+			}
+			break
+		}
+		if same(c, rv) || same(c, v) {
+			return val == want
+		}
+	}
+	return false
+}
